@@ -26,12 +26,74 @@ type recFold struct {
 
 var recFoldCache = map[*Program]*recFold{}
 
+// recShape is one target struct the record builder is folded for. The schema is always
+// (a long, gone string, b double, n1 record Inner, n2 Inner, c long); present[k] says whether schema
+// field k has a struct field of its name.
+type recShape struct {
+	name    string
+	fields  func(tA, tB, tX, tN1, tN2, tC *cpRType) []cpRField
+	size    int64
+	present [6]bool
+	off     [6]int64
+}
+
+var recShapes = []recShape{
+	{name: "struct {B, A, X, N1, N2, C chan}", size: 48, present: [6]bool{true, false, true, true, true, true}, off: [6]int64{8, 0, 0, 24, 32, 40},
+		fields: func(tA, tB, tX, tN1, tN2, tC *cpRType) []cpRField {
+			return []cpRField{{Name: "B", Tag: `json:"b"`, Type: tB, Offset: 0}, {Name: "A", Tag: `json:"a"`, Type: tA, Offset: 8}, {Name: "X", Type: tX, Offset: 16},
+				{Name: "N1", Tag: `json:"n1"`, Type: tN1, Offset: 24}, {Name: "N2", Tag: `json:"n2"`, Type: tN2, Offset: 32}, {Name: "C", Tag: `json:"c"`, Type: tC, Offset: 40}}
+		}},
+	// the property's own corner: a struct with no matching field still consumes the record, field by field, once
+	{name: "struct {X} (no field of the schema)", size: 8,
+		fields: func(tA, tB, tX, tN1, tN2, tC *cpRType) []cpRField {
+			return []cpRField{{Name: "X", Type: tX, Offset: 0}}
+		}},
+	{name: "struct {X, A} (only the first schema field)", size: 16, present: [6]bool{true, false, false, false, false, false}, off: [6]int64{8, 0, 0, 0, 0, 0},
+		fields: func(tA, tB, tX, tN1, tN2, tC *cpRType) []cpRField {
+			return []cpRField{{Name: "X", Type: tX, Offset: 0}, {Name: "A", Tag: `json:"a"`, Type: tA, Offset: 8}}
+		}},
+	{name: "struct {X, C} (only the last schema field)", size: 16, present: [6]bool{false, false, false, false, false, true}, off: [6]int64{0, 0, 0, 0, 0, 8},
+		fields: func(tA, tB, tX, tN1, tN2, tC *cpRType) []cpRField {
+			return []cpRField{{Name: "X", Type: tX, Offset: 0}, {Name: "C", Tag: `json:"c"`, Type: tC, Offset: 8}}
+		}},
+	{name: "struct {B, X} (only a middle schema field)", size: 16, present: [6]bool{false, false, true, false, false, false}, off: [6]int64{0, 0, 0, 0, 0, 0},
+		fields: func(tA, tB, tX, tN1, tN2, tC *cpRType) []cpRField {
+			return []cpRField{{Name: "B", Tag: `json:"b"`, Type: tB, Offset: 0}, {Name: "X", Type: tX, Offset: 8}}
+		}},
+}
+
+// recordByFold folds the record builder and the record codec's Read and Skip for every shape of recShapes;
+// the first problem found for a clause is kept, with the shape that shows it.
 func recordByFold(P *Program) *recFold {
 	if r, ok := recFoldCache[P]; ok {
 		return r
 	}
-	r := &recFold{problems: map[string]string{}}
+	r := &recFold{problems: map[string]string{}, ok: true}
 	recFoldCache[P] = r
+	for i, sh := range recShapes {
+		one := recordFoldOne(P, sh)
+		if i == 0 {
+			r.builder, r.readFn, r.detail = one.builder, one.readFn, one.detail
+		}
+		if !one.ok {
+			r.ok, r.why = false, one.why+" (target "+sh.name+")"
+			return r
+		}
+		for k, v := range one.problems {
+			if v != "" && r.problems[k] == "" {
+				if i > 0 {
+					v = "for target " + sh.name + ": " + v
+				}
+				r.problems[k] = v
+			}
+		}
+	}
+	r.detail += fmt.Sprintf("; repeated for %d target shapes in all (no, only the first, only the last, only a middle schema field present)", len(recShapes))
+	return r
+}
+
+func recordFoldOne(P *Program, sh recShape) *recFold {
+	r := &recFold{problems: map[string]string{}}
 	fail := func(why string) *recFold {
 		r.why = why
 		return r
@@ -86,9 +148,8 @@ func recordByFold(P *Program) *recFold {
 	tN1, tN2, tC := cpRTypeOfKind(reflect.Struct, false), cpRTypeOfKind(reflect.Struct, false), cpRTypeOfKind(reflect.Chan, false)
 	tN1.ID, tN1.Name = "fx.Inner1", "Inner1"
 	tN2.ID, tN2.Name = "fx.Inner2", "Inner2"
-	rt.Fields = []cpRField{{Name: "B", Tag: `json:"b"`, Type: tB, Offset: 0}, {Name: "A", Tag: `json:"a"`, Type: tA, Offset: 8}, {Name: "X", Type: tX, Offset: 16},
-		{Name: "N1", Tag: `json:"n1"`, Type: tN1, Offset: 24}, {Name: "N2", Tag: `json:"n2"`, Type: tN2, Offset: 32}, {Name: "C", Tag: `json:"c"`, Type: tC, Offset: 40}}
-	rt.Size = 48
+	rt.Fields = sh.fields(tA, tB, tX, tN1, tN2, tC)
+	rt.Size = sh.size
 	args := make([]cpVal, len(b.Params))
 	for i, p := range b.Params {
 		switch {
@@ -181,7 +242,12 @@ func recordByFold(P *Program) *recFold {
 	r.ok = true
 	wantSchema := []string{"long", "string", "double", "record", "Inner", "long"}
 	wantTyp := []cpVal{tA, cpNil{}, tB, tN1, tN2, tC}
-	wantOff := []int64{8, 0, 0, 24, 32, 40}
+	wantOff := sh.off[:]
+	for k := range wantTyp {
+		if !sh.present[k] {
+			wantTyp[k] = cpNil{}
+		}
+	}
 	nF := len(wantSchema)
 	var ids []string
 	var offs []int64
@@ -190,7 +256,7 @@ func recordByFold(P *Program) *recFold {
 		r.problems["list"] = fmt.Sprintf("for a schema of %d fields the record codec gets %d entries from %d sub-codec constructions: not one entry, with a codec of its own, per schema field", nF, len(entries.Elems), len(subs))
 		return r
 	}
-	sentinel := int64(0)
+	sentinel, haveSentinel := int64(0), false
 	for k, cell := range entries.Elems {
 		cv, _ := cpFieldByName(cell.V, codecName)
 		ov, _ := cpFieldByName(cell.V, offName)
@@ -213,15 +279,18 @@ func recordByFold(P *Program) *recFold {
 		if subs[k].typ != wantTyp[k] {
 			r.problems["pair"] = fmt.Sprintf("the codec for schema field %d is not built for the Go type of the struct field of that name", k)
 		}
-		if k == 1 {
-			sentinel = off
+		if !sh.present[k] {
+			if haveSentinel && off != sentinel {
+				r.problems["sentinel"] = fmt.Sprintf("two schema fields absent from the struct are marked with different offsets (%d, %d)", sentinel, off)
+			}
+			sentinel, haveSentinel = off, true
 		} else if off != wantOff[k] {
 			r.problems["pair"] = fmt.Sprintf("schema field %d is bound to offset %d, the struct field of that name is at %d", k, off, wantOff[k])
 		}
 		ids = append(ids, cu.ID)
 		offs = append(offs, off)
 	}
-	if sentinel >= 0 && sentinel < 48 {
+	if haveSentinel && sentinel >= 0 && sentinel < sh.size {
 		r.problems["sentinel"] = fmt.Sprintf("a schema field absent from the struct is given offset %d, which lies inside the struct", sentinel)
 	}
 	// Read and Skip on that codec value
@@ -310,7 +379,7 @@ func recordByFold(P *Program) *recFold {
 			if e.id != ids[k] {
 				r.problems["read"] = fmt.Sprintf("field %d is not handled by its own codec, in the schema's order", k)
 			}
-			if k == 1 {
+			if !sh.present[k] {
 				if e.op != "Skip" {
 					r.problems["absent"] = "a field absent from the struct is decoded (at a wild offset) instead of skipped by its own codec"
 				}
